@@ -302,6 +302,17 @@ pub fn scenario(r: &mut Rg, d: &Dials) -> Scenario {
             outputs[*oi].script_pubkey = any_script(r);
         }
     }
+    // now and then several marked outputs pay to the same script (same destination, different
+    // blinding keys)
+    if n_marked >= 2 && chance(r, 1, 6) {
+        let marked: Vec<usize> = (0..outputs.len()).filter(|i| receivers[*i].is_some()).collect();
+        let src = outputs[marked[0]].script_pubkey.clone();
+        for i in &marked[1..] {
+            if chance(r, 2, 3) {
+                outputs[*i].script_pubkey = src.clone();
+            }
+        }
+    }
     let first_marked = receivers.iter().position(|x| x.is_some()).unwrap_or(0);
     let last_marked = receivers.iter().rposition(|x| x.is_some()).unwrap_or(0);
     let shape = format!(
